@@ -162,6 +162,20 @@ Restarted(cfg, S) ==
         sum   |-> [l \in Lists |-> IF loaded(l) THEN Sum(P(l).rules) ELSE <<>>],
         eng   |-> [l \in Lists |-> InForce(cfg, S.file, l)]]
 
+(* set_url with a new location whose download FAILS.  The admin API that   *)
+(* points a list at another URL downloads from it at once, with the same    *)
+(* code as a refresh; when that download fails (any of the enumerated       *)
+(* ways) the request is refused and the list stays what it was: a failed    *)
+(* download of the list leaves file, count, rules in force - and the        *)
+(* checksum by which "unchanged content" is recognised - exactly as they    *)
+(* were, so that the refreshes that follow behave as if nothing happened.   *)
+SetURLFailed(cfg, S, l) == S
+\* KNOWN DEVIATION (classifier / negative control only): the roll-back of the
+\* code restores URL, name, enabled flag, time and rule count but not the
+\* checksum it zeroed before downloading; the list is left with the file and
+\* count of its last successful refresh and the checksum of an empty list.
+SetURLFailedAsIs(S, l) == [S EXCEPT !.sum[l] = <<>>]
+
 ------------------------------------------------------------------------------
 \* The statement, as predicates on one step  pre --refresh(sel, script)--> post
 \* with rew = the set of lists whose file was replaced.
